@@ -1862,7 +1862,11 @@ func (r *Raft) applyLoop() {
 	defer r.wg.Done()
 
 	for r.state != Shutdown {
-		r.applyCond.Wait()
+		// The commit index may already have been updated before this loop started to wait,
+		// only wait if there is nothing to apply.
+		if r.lastApplied >= r.commitIndex {
+			r.applyCond.Wait()
+		}
 
 		// Scan the log starting at the entry following the last applied entry
 		// and apply any entries that have been committed.
